@@ -11,12 +11,14 @@ from harness.build import build, SkipInput
 from harness.project import obs_graph, auto_taken
 
 
-def explore(g, tid=0, max_events=4000, mode='auto'):
+def explore(g, tid=0, max_events=4000, mode='auto', with_conn=True, seed=0):
     """Returns a trace dict {tid, g, ev, trunc, mode} or {'skip': reason}."""
     try:
         b = build(g)
     except SkipInput as e:
         return {'tid': tid, 'skip': str(e)}
+    import random
+    rng = random.Random(seed*31+tid)
     ev = []
     d0 = b.dsg
     ev.append({'e': 'Init', 'p': 0, 'c': 0, 'k': 0, 'q': 0, 'auto': auto_taken_init(b, d0), 'err': '',
@@ -35,6 +37,13 @@ def explore(g, tid=0, max_events=4000, mode='auto'):
         if not d.feasible:
             return
         nxt = [c for c in d.get_ordered_next_choice_nodes() if c in b.chinv and c in d.graph.nodes]
+        if not nxt and with_conn:
+            # all selection choices are resolved: the documented point at which connection choices are resolved
+            for cn in [c for c in d.graph.nodes if c in b.ccinv]:
+                if len(ev) >= max_events:
+                    trunc[0] = True
+                    return
+                ev.append(conn_event(b, d, pid, cn, counter, rng))
         for c in nxt:
             for o in d.get_option_nodes(c):
                 if len(ev) >= max_events:
@@ -72,3 +81,47 @@ EMPTY_OBS = {'nodes': [], 'sel_left': [], 'cc_left': [], 'feasible': False, 'fin
 def auto_taken_init(b, d):
     # initialize_choices ends with resolve_single_selection_choices, which leaves its record on the class
     return auto_taken(b, d)
+
+
+def conn_event(b, d, pid, cn, counter, rng, max_sets=60, box_limit=300):
+    """Everything the property observes about one connection choice of one selection-final instance."""
+    import itertools
+    import numpy as np
+    from adsg_core.optimization.assign_enc.matrix import NodeExistence
+    k = b.ccinv[cn]
+    e = {'e': 'Conn', 'p': pid, 'c': k, 'k': 0, 'q': 0, 'auto': [], 'err': '', 'obs': EMPTY_OBS, 'offered': [], 'cap': [],
+         'srcn': [], 'tgtn': [], 'val': [], 'applied': [], 'box_complete': False}
+    try:
+        offered = [[[b.inv[s], b.inv[t]] for s, t in edges] for edges in cn.iter_conn_edges(d)]
+        e['offered'] = [sorted(x) for x in offered]
+        gen, node_map = cn._get_matrix_gen(d)          # observation of the per-pair limits (logged, not modelled)
+        e['srcn'] = [b.inv[n] for n in node_map[0]]
+        e['tgtn'] = [b.inv[n] for n in node_map[1]]
+        cap = [[int(v) for v in row] for row in gen.get_max_conn_mat(NodeExistence())]
+        e['cap'] = cap
+        # validation on the box of edge multisets allowed by the limits (+ one beyond)
+        cells = [(i, j) for i in range(len(cap)) for j in range(len(cap[0]) if cap else 0)]
+        ranges = [range(cap[i][j]+1) for i, j in cells]
+        total = 1
+        for r in ranges:
+            total *= len(r)
+        combos = list(itertools.product(*ranges)) if total <= box_limit else \
+            [tuple(rng.choice(list(r)) for r in ranges) for _ in range(box_limit)]
+        e['box_complete'] = total <= box_limit
+        for vals in combos:
+            edges = []
+            for (i, j), v in zip(cells, vals):
+                edges += [(node_map[0][i], node_map[1][j])]*v
+            ok = bool(cn.validate_conn_edges(d, edges))
+            e['val'].append({'edges': sorted([b.inv[s], b.inv[t]] for s, t in edges), 'ok': ok})
+        for edges in offered[:max_sets]:
+            counter[0] += 1
+            qid = counter[0]
+            try:
+                d2 = d.get_for_apply_connection_choice(cn, [(b.node[s], b.node[t]) for s, t in edges])
+                e['applied'].append({'q': qid, 'edges': sorted(edges), 'err': '', 'obs': obs_graph(b, d2)})
+            except Exception as ex:
+                e['applied'].append({'q': qid, 'edges': sorted(edges), 'err': type(ex).__name__, 'obs': EMPTY_OBS})
+    except Exception as ex:
+        e['err'] = type(ex).__name__ + ': ' + str(ex)[:120]
+    return e
